@@ -23,17 +23,20 @@ Ltac zl := unfold UnaryPrec, HighestPrec, LowestPrec in *; lia.
 (* ------------------------------------------------------------------ printed forms *)
 Lemma pr_bin op x y : pr (EBin op x y) = at_ (prec op) x ++ TOp op :: at_ (prec op + 1) y. Proof. reflexivity. Qed.
 Lemma pr_un op x : pr (EUn op x) = TOp op :: at_ UnaryPrec x. Proof. reflexivity. Qed.
-Lemma pr_star x : pr (EStar x) = TOp xgo_MUL :: pr x. Proof. reflexivity. Qed.
+Lemma pr_star x : pr (EStar x) = TOp xgo_MUL :: at_ UnaryPrec x. Proof. reflexivity. Qed.
 Lemma pr_sel x s : pr (ESel x s) = at_ HighestPrec x ++ [TOp xgo_PERIOD; TId s]. Proof. reflexivity. Qed.
 Lemma pr_idx x i : pr (EIdx x i) = at_ HighestPrec x ++ TOp xgo_LBRACK :: pr i ++ [TOp xgo_RBRACK]. Proof. reflexivity. Qed.
 Lemma pr_call f args ell : pr (ECall f args ell) =
   at_ HighestPrec f ++ LP :: prl args ++ (if ell then [TOp xgo_ELLIPSIS; RP] else [RP]). Proof. reflexivity. Qed.
-Lemma pr_ew t x : pr (EEw t x) = pr x ++ [TOp t]. Proof. reflexivity. Qed.
-Lemma pr_ewd t x d : pr (EEwd t x d) = pr x ++ TOp t :: TOp xgo_COLON :: pr d. Proof. reflexivity. Qed.
+Lemma pr_ew t x : pr (EEw t x) = at_ HighestPrec x ++ [TOp t]. Proof. reflexivity. Qed.
+Lemma pr_ewd t x d : pr (EEwd t x d) = at_ HighestPrec x ++ TOp t :: TOp xgo_COLON :: at_ UnaryPrec d. Proof. reflexivity. Qed.
 Lemma pr_par x : pr (EPar x) = match x with EPar _ => pr x | _ => LP :: pr x ++ [RP] end. Proof. destruct x; reflexivity. Qed.
 
 Lemma norm_bin op x y : norm (EBin op x y) = EBin op (nat_ (prec op) x) (nat_ (prec op + 1) y). Proof. reflexivity. Qed.
 Lemma norm_un op x : norm (EUn op x) = EUn op (nat_ UnaryPrec x). Proof. reflexivity. Qed.
+Lemma norm_star x : norm (EStar x) = EStar (nat_ UnaryPrec x). Proof. reflexivity. Qed.
+Lemma norm_ew t x : norm (EEw t x) = EEw t (nat_ HighestPrec x). Proof. reflexivity. Qed.
+Lemma norm_ewd t x d : norm (EEwd t x d) = EEwd t (nat_ HighestPrec x) (nat_ UnaryPrec d). Proof. reflexivity. Qed.
 Lemma norm_sel x s : norm (ESel x s) = ESel (nat_ HighestPrec x) s. Proof. reflexivity. Qed.
 Lemma norm_idx x i : norm (EIdx x i) = EIdx (nat_ HighestPrec x) (norm i). Proof. reflexivity. Qed.
 Lemma norm_call f args ell : norm (ECall f args ell) = ECall (nat_ HighestPrec f) (map norm args) ell. Proof. reflexivity. Qed.
@@ -77,9 +80,9 @@ Proof.
   repeat (apply andb_prop in H as [H ?]). unfold UnaryPrec in *. lia.
 Qed.
 
-Lemma plev_pos e : validb e = true -> 1 <= plev e.
+Lemma plev_pos e : validb e = true -> (match e with ELam _ _ _ _ => false | _ => true end) = true -> 1 <= plev e.
 Proof.
-  destruct e; cbn [plev validb]; intros H; try zl.
+  destruct e; cbn [plev validb]; intros H L; try zl; try discriminate.
   apply andb_prop in H as [H _]. apply andb_prop in H as [H _]. apply binop_prec in H. lia.
 Qed.
 Lemma tlev_le e : validb e = true -> tlev e <= 8.
@@ -88,8 +91,10 @@ Proof.
   apply andb_prop in H as [H _]. apply andb_prop in H as [H _]. apply binop_prec in H. lia.
 Qed.
 (* for lambda-free trees the printer's level is the parser's level, except for "x ?: d" *)
+Lemma tlev_eq_plev e : tlev e = plev e.
+Proof. destruct e; reflexivity. Qed.
 Lemma tlev_plev e : validb e = true -> 6 <= tlev e -> 6 <= plev e.
-Proof. destruct e; cbn [tlev plev validb]; intros; zl. Qed.
+Proof. intros _. rewrite tlev_eq_plev. auto. Qed.
 Lemma tlev8_plev e : validb e = true -> 8 <= tlev e -> plev e = 8.
 Proof.
   destruct e; cbn [tlev plev validb]; intros H ?; try zl.
@@ -129,8 +134,8 @@ Proof.
   - rewrite pr_call, <- app_assoc. unfold at_ at 1. destruct (plev e <? HighestPrec); [reflexivity|auto].
   - rewrite pr_idx, <- app_assoc. unfold at_ at 1. destruct (plev e1 <? HighestPrec); [reflexivity|auto].
   - rewrite pr_sel, <- app_assoc. unfold at_ at 1. destruct (plev e <? HighestPrec); [reflexivity|auto].
-  - rewrite pr_ew, <- app_assoc. auto.
-  - rewrite pr_ewd, <- app_assoc. auto.
+  - rewrite pr_ew, <- app_assoc. unfold at_ at 1. destruct (plev e <? HighestPrec); [reflexivity|auto].
+  - rewrite pr_ewd, <- app_assoc. unfold at_ at 1. destruct (plev e1 <? HighestPrec); [reflexivity|auto].
   - destruct lp; [reflexivity|]. destruct lhs; reflexivity.
 Qed.
 
@@ -153,9 +158,8 @@ Proof.
     apply IHe1; auto. match goal with H : ok_at _ _ _ = true |- _ => apply ok_at_inv in H as [H|[_ H]] end; [congruence|auto].
   - rewrite pr_sel, <- app_assoc. unfold at_ at 1. destruct (plev e <? HighestPrec) eqn:E; [reflexivity|].
     apply IHe; auto. match goal with H : ok_at _ _ _ = true |- _ => apply ok_at_inv in H as [H|[_ H]] end; [congruence|auto].
-  - rewrite pr_ew, <- app_assoc. apply IHe; auto.
-    match goal with H : ok_at _ _ _ = true |- _ => apply ok_at_inv in H as [H|[_ H]] end; auto.
-    pose proof (plev_pos e ltac:(assumption)). apply Z.ltb_lt in H. zl.
+  - rewrite pr_ew, <- app_assoc. unfold at_ at 1. destruct (plev e <? HighestPrec) eqn:E; [reflexivity|].
+    apply IHe; auto. match goal with H : ok_at _ _ _ = true |- _ => apply ok_at_inv in H as [H|[_ H]] end; [congruence|auto].
 Qed.
 
 Lemma startok_heads ts : startok ts = true ->
@@ -189,10 +193,10 @@ Proof.
     apply IHe1; auto. eapply ok_not_lam; eauto. lia.
   - rewrite pr_sel, <- app_assoc. unfold at_ at 1. destruct (plev e <? HighestPrec) eqn:E; [reflexivity|].
     apply IHe; auto. eapply ok_not_lam; eauto. lia.
-  - rewrite pr_ew, <- app_assoc. apply IHe; auto. eapply (ok_not_lam LowestPrec 8); eauto; [|lia].
-    pose proof (plev_pos e ltac:(assumption)). apply Z.ltb_ge. zl.
-  - rewrite pr_ewd, <- app_assoc. apply IHe1; auto. eapply (ok_not_lam LowestPrec 8); eauto; [|lia].
-    pose proof (plev_pos e1 ltac:(assumption)). apply Z.ltb_ge. zl.
+  - rewrite pr_ew, <- app_assoc. unfold at_ at 1. destruct (plev e <? HighestPrec) eqn:E; [reflexivity|].
+    apply IHe; auto. eapply ok_not_lam; eauto. lia.
+  - rewrite pr_ewd, <- app_assoc. unfold at_ at 1. destruct (plev e1 <? HighestPrec) eqn:E; [reflexivity|].
+    apply IHe1; auto. eapply ok_not_lam; eauto. lia.
 Qed.
 
 Lemma stop0_rp r : stop0 (RP :: r) = true.
@@ -409,20 +413,12 @@ Proof.
   up (f + f1)%nat H1. rewrite H1. ev. up (f + f1)%nat H. exact H.
 Qed.
 
-Lemma ok08 x : validb x = true -> ok_at LowestPrec 8 x = true -> plev x = 8 /\ 8 <= tlev x.
+Lemma N_ew t x : PG x -> ew_ok t = true -> ok_at HighestPrec 8 x = true -> PG (EEw t x).
 Proof.
-  intros V H. apply ok_at_inv in H as [H|[_ H]].
-  - pose proof (plev_pos x V). apply Z.ltb_lt in H. zl.
-  - split; auto. now apply tlev8_plev.
-Qed.
-
-Lemma N_ew t x : PG x -> validb x = true -> ew_ok t = true -> ok_at LowestPrec 8 x = true -> PG (EEw t x).
-Proof.
-  intros HX V T K _ atp r v r' [f H]. destruct (ok08 x V K) as [E8 T8].
+  intros HX T K _ atp r v r' [f H].
   change (at_ HighestPrec (EEw t x)) with (pr (EEw t x)).
-  change (nat_ HighestPrec (EEw t x)) with (EEw t (norm x)) in H.
-  rewrite pr_ew, <- app_assoc. cbn [app].
-  destruct (at7_prim x E8) as [Ea En]. rewrite <- Ea. apply (HX (or_intror T8)). rewrite En.
+  change (nat_ HighestPrec (EEw t x)) with (EEw t (nat_ HighestPrec x)) in H.
+  rewrite pr_ew, <- app_assoc. cbn [app]. apply (HX (ok78 _ K)).
   exists (S f). destruct (ew_ok_cases t T) as [-> | ->]; ev; exact H.
 Qed.
 
@@ -516,38 +512,31 @@ Proof.
   destruct (un_ok_cases op O) as [ -> | [ -> | [ -> | [ -> | [ -> | -> ] ] ] ] ]; ev; rewrite Hf; reflexivity.
 Qed.
 
-Lemma ok06 x : validb x = true -> ok_at LowestPrec UnaryPrec x = true ->
-  at_ UnaryPrec x = pr x /\ nat_ UnaryPrec x = norm x /\ UnaryPrec <= tlev x.
-Proof.
-  intros V H. apply ok_at_inv in H as [H|[_ H]].
-  - pose proof (plev_pos x V). apply Z.ltb_lt in H. zl.
-  - pose proof (tlev_plev x V H). destruct (at_ge UnaryPrec x) as [-> ->]; auto. apply Z.ltb_ge. zl.
-Qed.
-
-Lemma N_star x : UG x -> validb x = true -> ok_at LowestPrec UnaryPrec x = true ->
+Lemma N_star x : UG x -> ok_at UnaryPrec UnaryPrec x = true ->
   forall atp r, stop7 r = true ->
   exists f, P f (SUnary atp) (pr (EStar x) ++ r) = ROk (PE (norm (EStar x))) r.
 Proof.
-  intros HX V K atp r Hs. destruct (ok06 x V K) as (Ea & En & T).
-  destruct (HX (or_intror T) false r Hs) as [f Hf]. rewrite Ea, En in Hf.
-  exists (S f). rewrite pr_star. cbn [app]. ev. rewrite Hf. reflexivity.
+  intros HX K atp r Hs. destruct (HX (ok66 _ K) false r Hs) as [f Hf].
+  exists (S f). rewrite pr_star, norm_star. cbn [app]. ev. rewrite Hf. reflexivity.
 Qed.
 
 Lemma N_ewd t x d : PG x -> UG d -> ew_ok t = true ->
-  validb x = true -> posokb x = true -> validb d = true ->
-  ok_at LowestPrec 8 x = true -> ok_at LowestPrec UnaryPrec d = true ->
+  validb x = true -> posokb x = true ->
+  ok_at HighestPrec 8 x = true -> ok_at UnaryPrec UnaryPrec d = true ->
   forall atp r, stop7 r = true ->
   exists f, P f (SUnary atp) (pr (EEwd t x d) ++ r) = ROk (PE (norm (EEwd t x d))) r.
 Proof.
-  intros HX HD T Vx Kx Vd K8 K6 atp r Hs.
-  destruct (ok08 x Vx K8) as [E8 T8]. destruct (at7_prim x E8) as [Eax Enx].
-  destruct (ok06 d Vd K6) as (Ead & End & Td).
-  destruct (HD (or_intror Td) false r Hs) as [f1 H1]. rewrite Ead, End in H1.
-  destruct (HX (or_intror T8) atp (TOp t :: TOp xgo_COLON :: pr d ++ r) (PE (EEw t (norm x))) (TOp xgo_COLON :: pr d ++ r)) as [f2 H2].
-  { exists 2%nat. rewrite Enx. destruct (ew_ok_cases t T) as [-> | ->]; reflexivity. }
-  rewrite Eax in H2.
-  exists (S (S (f1 + f2))). rewrite pr_ewd, <- app_assoc. cbn [app].
-  rewrite unary_prim by (apply prim_start; auto).
+  intros HX HD T Vx Kx K8 K6 atp r Hs.
+  destruct (HD (ok66 _ K6) false r Hs) as [f1 H1].
+  destruct (HX (ok78 _ K8) atp (TOp t :: TOp xgo_COLON :: at_ UnaryPrec d ++ r) (PE (EEw t (nat_ HighestPrec x)))
+               (TOp xgo_COLON :: at_ UnaryPrec d ++ r)) as [f2 H2].
+  { exists 2%nat. destruct (ew_ok_cases t T) as [-> | ->]; reflexivity. }
+  exists (S (S (f1 + f2))). rewrite pr_ewd, norm_ewd, <- app_assoc. cbn [app].
+  assert (Hst : primstart (at_ HighestPrec x ++ TOp t :: TOp xgo_COLON :: at_ UnaryPrec d ++ r) = true).
+  { apply ok_at_inv in K8 as [K8|[K8 T8]].
+    - destruct (at_lt _ _ K8) as [-> _]. reflexivity.
+    - destruct (at_ge _ _ K8) as [-> _]. apply prim_start; auto. }
+  rewrite unary_prim by exact Hst.
   cbn [P step]. up (f1 + f2)%nat H2. rewrite H2. cbn [hd_is tl]. eqbs.
   up (f1 + f2)%nat H1. rewrite H1. reflexivity.
 Qed.
@@ -591,8 +580,8 @@ Proof.
   - apply orb_false_iff in S as [S1 S2]. rewrite pr_call, <- app_assoc. unfold at_ at 1. rewrite S1. auto.
   - apply orb_false_iff in S as [S1 S2]. rewrite pr_idx, <- app_assoc. unfold at_ at 1. rewrite S1. auto.
   - apply orb_false_iff in S as [S1 S2]. rewrite pr_sel, <- app_assoc. unfold at_ at 1. rewrite S1. auto.
-  - rewrite pr_ew, <- app_assoc. auto.
-  - rewrite pr_ewd, <- app_assoc. auto.
+  - apply orb_false_iff in S as [S1 S2]. rewrite pr_ew, <- app_assoc. unfold at_ at 1. rewrite S1. auto.
+  - apply orb_false_iff in S as [S1 S2]. rewrite pr_ewd, <- app_assoc. unfold at_ at 1. rewrite S1. auto.
   - subst lp. rewrite pr_lam. destruct lhs; reflexivity.
 Qed.
 
@@ -667,7 +656,7 @@ Proof.
   assert (L : is_lam e = false) by (destruct e; try reflexivity; cbn [tlev] in T8; lia).
   assert (HU : UG e). { intros _. apply D_PU; auto. }
   assert (HB : BG e).
-  { intros p1 q atp r v r' Hp Hq _ [Hs _] Hc. eapply D_UB; eauto. right. zl. }
+  { intros p1 q atp r v r' Hp Hq _ [Hs _] Hc. eapply D_UB; eauto; right; zl. }
   assert (HE : E0 e).
   { apply D_BE; auto. intros atp r v r' Hl Hc.
     destruct (at_ge 1 e) as [Ea En]; [apply Z.ltb_ge; lia|]. rewrite <- Ea. rewrite <- En in Hc.
@@ -685,7 +674,7 @@ Proof.
   destruct (at_ge UnaryPrec e) as [Ea6 En6]; [apply Z.ltb_ge; lia|].
   assert (HU : UG e). { intros _ atp r Hs. rewrite Ea6, En6. auto. }
   assert (HB : BG e).
-  { intros p1 q atp r v r' Hp Hq _ [Hs _] Hc. eapply D_UB; eauto. right. lia. }
+  { intros p1 q atp r v r' Hp Hq _ [Hs _] Hc. eapply D_UB; eauto; right; lia. }
   assert (HE : E0 e).
   { apply D_BE; auto. intros atp r v r' Hl Hc.
     destruct (at_ge 1 e) as [Ea En]; [apply Z.ltb_ge; zl|]. rewrite <- Ea. rewrite <- En in Hc.
@@ -842,17 +831,18 @@ Proof.
   - (* EEwd *) destruct (IH e1) as (HP1 & _); auto; try lia.
     destruct (IH e2) as (_ & HU2 & _); auto; try lia.
     apply from_UG; auto; try (cbn [plev tlev]; zl). intros. now apply N_ewd.
-  - (* ELam: only the expression level is meaningful; the operand levels are excluded by their preconditions *)
+  - (* ELam: read at the expression level; as an operand the printer now parenthesises it (plev = LowestPrec) *)
     assert (HE : E0 (ELam lhs lp rhs rp)).
     { apply N_lam; auto. intros a Ha. pose proof (In_szl a rhs Ha). unfold szl in *.
       assert (Va : validb a = true) by (eapply forallb_In; eauto).
       assert (Ka : posokb a = true) by (eapply forallb_In; eauto).
       destruct (IH a) as (_ & _ & _ & HEa); auto; lia. }
+    assert (HP : PG (ELam lhs lp rhs rp)) by (apply PG_paren; auto).
+    assert (HU : UG (ELam lhs lp rhs rp)).
+    { intros _. apply D_PU; auto. }
+    assert (HB : BG (ELam lhs lp rhs rp)).
+    { intros p1 q atp r v r' Hp Hq _ [Hs7 _] Hc. eapply D_UB; eauto. left. apply Z.ltb_lt. cbn [plev]. zl. }
     repeat split; auto.
-    + intros [Hx|Hx]; [discriminate Hx|cbn [tlev] in Hx; lia].
-    + intros [Hx|Hx]; [discriminate Hx|cbn [tlev] in Hx; zl].
-    + intros p1 q atp r v r' Hp Hq Hok. exfalso. unfold ok_at in Hok. cbn [plev tlev] in Hok.
-      apply orb_true_iff in Hok as [Hx|Hx]; [apply Z.ltb_lt in Hx; zl|apply Z.leb_le in Hx; lia].
 Qed.
 
 (* ------------------------------------------------------------------ the round trip *)
@@ -880,15 +870,15 @@ Proof.
   induction n as [|n IH]; intros e Hs. { destruct e; cbn [sz] in Hs; lia. }
   destruct e; cbn [sz] in Hs; try reflexivity.
   - rewrite norm_un. cbn [strip]. rewrite strip_nat, IH by lia. reflexivity.
-  - change (norm (EStar e)) with (EStar (norm e)). cbn [strip]. rewrite IH by lia. reflexivity.
+  - rewrite norm_star. cbn [strip]. rewrite strip_nat, IH by lia. reflexivity.
   - rewrite norm_bin. cbn [strip]. rewrite !strip_nat, !IH by lia. reflexivity.
   - rewrite norm_par. destruct e; cbn [strip]; try (rewrite IH by (cbn [sz] in *; lia); reflexivity).
   - rewrite norm_call. cbn [strip]. rewrite strip_nat, IH by lia. f_equal.
     rewrite map_map. apply map_ext_in. intros a Ha. apply IH. pose proof (In_szl a args Ha). unfold szl in *. lia.
   - rewrite norm_idx. cbn [strip]. rewrite strip_nat, !IH by lia. reflexivity.
   - rewrite norm_sel. cbn [strip]. rewrite strip_nat, IH by lia. reflexivity.
-  - change (norm (EEw t e)) with (EEw t (norm e)). cbn [strip]. rewrite IH by lia. reflexivity.
-  - change (norm (EEwd t e1 e2)) with (EEwd t (norm e1) (norm e2)). cbn [strip]. rewrite !IH by lia. reflexivity.
+  - rewrite norm_ew. cbn [strip]. rewrite strip_nat, IH by lia. reflexivity.
+  - rewrite norm_ewd. cbn [strip]. rewrite !strip_nat, !IH by lia. reflexivity.
   - change (norm (ELam lhs lp rhs rp)) with (ELam lhs lp (map norm rhs) rp). cbn [strip]. f_equal.
     rewrite map_map. apply map_ext_in. intros a Ha. apply IH. pose proof (In_szl a rhs Ha). unfold szl in *. lia.
 Qed.
@@ -920,15 +910,15 @@ Proof.
   induction n as [|n IH]; intros e Hs N. { destruct e; cbn [sz] in Hs; lia. }
   destruct e; cbn [sz] in Hs; cbn [noaddb] in N; bsplit; try reflexivity.
   - rewrite norm_un, nat_tight, IH by (auto; lia). reflexivity.
-  - change (norm (EStar e)) with (EStar (norm e)). rewrite IH by (auto; lia). reflexivity.
+  - rewrite norm_star, nat_tight, IH by (auto; lia). reflexivity.
   - rewrite norm_bin, !nat_tight, !IH by (auto; lia). reflexivity.
   - rewrite norm_par. destruct e; try discriminate; rewrite IH by (auto; cbn [sz] in *; lia); reflexivity.
   - rewrite norm_call, nat_tight, IH by (auto; lia). f_equal. apply map_id_in. intros a Ha.
     apply IH; [pose proof (In_szl a args Ha); unfold szl in *; lia|]. eapply forallb_In; eauto.
   - rewrite norm_idx, nat_tight, !IH by (auto; lia). reflexivity.
   - rewrite norm_sel, nat_tight, IH by (auto; lia). reflexivity.
-  - change (norm (EEw t e)) with (EEw t (norm e)). rewrite IH by (auto; lia). reflexivity.
-  - change (norm (EEwd t e1 e2)) with (EEwd t (norm e1) (norm e2)). rewrite !IH by (auto; lia). reflexivity.
+  - rewrite norm_ew, nat_tight, IH by (auto; lia). reflexivity.
+  - rewrite norm_ewd, !nat_tight, !IH by (auto; lia). reflexivity.
   - change (norm (ELam lhs lp rhs rp)) with (ELam lhs lp (map norm rhs) rp). f_equal. apply map_id_in. intros a Ha.
     apply IH; [pose proof (In_szl a rhs Ha); unfold szl in *; lia|]. eapply forallb_In; eauto.
 Qed.
@@ -963,7 +953,7 @@ Proof.
   induction n as [|n IH]; intros e Hs V. { destruct e; cbn [sz] in Hs; lia. }
   destruct e; cbn [sz] in Hs; cbn [validb] in V; bsplit; try reflexivity.
   - rewrite norm_un, !pr_un, at_nat; auto; try zl. apply IH; auto; lia.
-  - change (norm (EStar e)) with (EStar (norm e)). rewrite !pr_star, IH by (auto; lia). reflexivity.
+  - rewrite norm_star, !pr_star, at_nat; auto; try zl. apply IH; auto; lia.
   - match goal with H : is_binop _ = true |- _ => apply binop_prec in H end.
     rewrite norm_bin, !pr_bin, !at_nat; auto; try lia; apply IH; auto; lia.
   - rewrite norm_par. destruct (is_par e) eqn:Ep.
@@ -975,8 +965,8 @@ Proof.
     intros a Ha. apply IH; [pose proof (In_szl a args Ha); unfold szl in *; lia|]. eapply forallb_In; eauto.
   - rewrite norm_idx, !pr_idx, at_nat, (IH e2); auto; try zl; try lia. apply IH; auto; lia.
   - rewrite norm_sel, !pr_sel, at_nat; auto; try zl. apply IH; auto; lia.
-  - change (norm (EEw t e)) with (EEw t (norm e)). rewrite !pr_ew, IH by (auto; lia). reflexivity.
-  - change (norm (EEwd t e1 e2)) with (EEwd t (norm e1) (norm e2)). rewrite !pr_ewd, !IH by (auto; lia). reflexivity.
+  - rewrite norm_ew, !pr_ew, at_nat; auto; try zl. apply IH; auto; lia.
+  - rewrite norm_ewd, !pr_ewd, !at_nat; auto; try zl; apply IH; auto; lia.
   - change (norm (ELam lhs lp rhs rp)) with (ELam lhs lp (map norm rhs) rp).
     assert (HR : forall a, In a rhs -> pr (norm a) = pr a).
     { intros a Ha. apply IH; [pose proof (In_szl a rhs Ha); unfold szl in *; lia|]. eapply forallb_In; eauto. }
@@ -1034,7 +1024,7 @@ Proof.
   destruct x; cbn [sz] in Hs; cbn [validb] in Vx; bsplit; try reflexivity.
   - rewrite norm_un. cbn [validb]. rewrite validb_nat by (apply IH; auto; lia).
     match goal with B : un_ok op = true |- _ => rewrite B end. reflexivity.
-  - change (norm (EStar x)) with (EStar (norm x)). cbn [validb]. apply IH; auto; lia.
+  - rewrite norm_star. cbn [validb]. apply validb_nat. apply IH; auto; lia.
   - rewrite norm_bin. cbn [validb]. rewrite !validb_nat by (apply IH; auto; lia).
     match goal with B : is_binop op = true |- _ => rewrite B end. reflexivity.
   - rewrite norm_par. destruct x; cbn [validb]; try (apply IH; auto; cbn [sz] in *; lia).
@@ -1045,9 +1035,9 @@ Proof.
     rewrite Q. cbn [andb]. destruct args; cbn [map is_nil] in *; auto.
   - rewrite norm_idx. cbn [validb]. rewrite validb_nat by (apply IH; auto; lia). rewrite IH by (auto; lia). reflexivity.
   - rewrite norm_sel. cbn [validb]. apply validb_nat. apply IH; auto; lia.
-  - change (norm (EEw t x)) with (EEw t (norm x)). cbn [validb]. rewrite IH by (auto; lia).
+  - rewrite norm_ew. cbn [validb]. rewrite validb_nat by (apply IH; auto; lia).
     match goal with B : ew_ok t = true |- _ => rewrite B end. reflexivity.
-  - change (norm (EEwd t x1 x2)) with (EEwd t (norm x1) (norm x2)). cbn [validb]. rewrite !IH by (auto; lia).
+  - rewrite norm_ewd. cbn [validb]. rewrite !validb_nat by (apply IH; auto; lia).
     match goal with B : ew_ok t = true |- _ => rewrite B end. reflexivity.
   - change (norm (ELam lhs lp rhs rp)) with (ELam lhs lp (map norm rhs) rp). cbn [validb]. rewrite map_length.
     assert (Q : forallb validb (map norm rhs) = true).
@@ -1062,3 +1052,35 @@ Proof.
   intros V. split; [|apply (pr_norm (sz e)); auto].
   apply (pr_norm (sz (norm e))); auto. apply (validb_norm (sz e)); auto.
 Qed.
+
+(* ------------------------------------------------------------------ posokb after the printer repair
+   The printer now parenthesises every operand whose level is below the level at which the parser reads its
+   position, so every operand-position clause of posokb holds by itself; what is left is lamokb: a lambda body
+   that starts with "(" is still read as a parenthesised result list. *)
+Lemma ok_pp p x : ok_at p p x = true.
+Proof.
+  unfold ok_at. pose proof (tlev_eq_plev x) as Q. destruct (plev x <? p) eqn:E; [reflexivity|]. apply Z.ltb_ge in E.
+  cbn [orb]. apply Z.leb_le. lia.
+Qed.
+Lemma ok_78 x : validb x = true -> ok_at HighestPrec 8 x = true.
+Proof.
+  intros V. unfold ok_at.
+  destruct x; cbn [plev tlev validb] in *; try reflexivity.
+  bsplit. match goal with B : is_binop _ = true |- _ => apply binop_prec in B end.
+  rewrite (proj2 (Z.ltb_lt (prec op) HighestPrec)) by zl. reflexivity.
+Qed.
+
+Lemma lamok_posok : forall n e, (sz e <= n)%nat -> validb e = true -> lamokb e = true -> posokb e = true.
+Proof.
+  induction n as [|n IH]; intros e Hs V L. { destruct e; cbn [sz] in Hs; lia. }
+  destruct e; cbn [sz] in Hs; cbn [validb lamokb] in V, L; bsplit; cbn [posokb]; try reflexivity;
+    repeat match goal with |- (_ && _) = true => apply andb_true_intro; split end;
+    try apply ok_pp; try (apply ok_78; assumption); try (apply IH; auto; lia); try assumption.
+  - apply forallb_forall. intros a Ha. apply IH; [pose proof (In_szl a args Ha); unfold szl in *; lia| |];
+      eapply forallb_In; eauto.
+  - apply forallb_forall. intros a Ha. apply IH; [pose proof (In_szl a rhs Ha); unfold szl in *; lia| |];
+      eapply forallb_In; eauto.
+Qed.
+
+Theorem roundtrip_lamok e : validb e = true -> lamokb e = true -> exists f, parse_expr f (pr e) = ROk (PE (norm e)) [].
+Proof. intros V L. apply roundtrip; auto. apply (lamok_posok (sz e)); auto. Qed.
